@@ -1,20 +1,8 @@
-SYNCER_PREDICATES = {
-    "bisyncSlotMode": "{ if ro.cfg.Redis.IsCluster() { return bisyncSlotMode{} } slot := uint16(0) return bisyncSlotMode{ forceSlot: &slot, allowCrossSlot: true, } }",
-    "isBisyncControlCommand": "{ return touchesBisyncNamespace(cmd) }",
-    "isBisyncMarkerCommand": "{ if strings.ToLower(cmd.Cmd) != \"set\" || len(cmd.Args) < 2 { return false } key := util.BytesToString(cmd.Args[0]) return checkpoint.IsBisyncMarkerKey(key) }",
-    "isBisyncMarkerExpiryCommand": "{ switch strings.ToLower(cmd.Cmd) { case \"del\", \"unlink\": return len(cmd.Args) == 1 && checkpoint.IsBisyncMarkerKey(util.BytesToString(cmd.Args[0])) } return false }",
-    "isBisyncMirroredTransaction": "{ for _, cmd := range cmds { if isBisyncMarkerExpiryCommand(cmd) { continue } return isBisyncMarkerCommand(cmd) } return false }",
-    "isBisyncNamespaceKey": "{ return strings.HasPrefix(key, checkpoint.BisyncKeyPrefix+\":\") || strings.HasPrefix(key, config.CheckpointKey) }",
-    "touchesBisyncNamespace": "{ if len(cmd.Args) == 0 { return false } switch strings.ToLower(cmd.Cmd) { case \"del\", \"unlink\": for _, arg := range cmd.Args { if isBisyncNamespaceKey(string(arg)) { return true } } return false default: return isBisyncNamespaceKey(string(cmd.Args[0])) } }",
-}
-
-KEY_PREDICATES = {
-    "IsBisyncCommitIndexKey": "{ return strings.HasPrefix(key, BisyncKeyPrefix+\":\") && strings.Contains(key, \":index:{\") }",
-    "IsBisyncCommitKey": "{ return strings.HasPrefix(key, BisyncKeyPrefix+\":\") && strings.Contains(key, \":commit:{\") }",
-    "IsBisyncLatestKey": "{ return strings.HasPrefix(key, BisyncKeyPrefix+\":\") && strings.Contains(key, \":latest:{\") }",
-    "IsBisyncMarkerKey": "{ return strings.HasPrefix(key, BisyncKeyPrefix+\":\") && strings.Contains(key, \":marker:{\") }",
-    "IsBisyncRdbRecordKey": "{ return strings.HasPrefix(key, BisyncKeyPrefix+\":\") && strings.Contains(key, \":rdb:{\") }",
-}
+# session 5: the bodies of isBisyncNamespaceKey / touchesBisyncNamespace / isBisyncControlCommand / isBisyncMarkerCommand /
+# isBisyncMarkerExpiryCommand / isBisyncMirroredTransaction and of the five checkpoint.IsBisync…Key predicates are no longer
+# compared as printed text: they are REGENERATED as Lean (generators gofn_bisyncpreds, gofn_bisynckeypreds) and proved equal
+# to the hand model (Props/C13Gen.lean). Only bisyncSlotMode (reads ro.cfg: outside the translator's subset) stays a text fact.
+SLOTMODE_BODY = "{ if ro.cfg.Redis.IsCluster() { return bisyncSlotMode{} } slot := uint16(0) return bisyncSlotMode{ forceSlot: &slot, allowCrossSlot: true, } }"
 
 # facts about every place the tool writes to the target on the bidirectional path (harness/extract/c13.go); the Lean
 # inventory Proofs/BisyncWriters.lean `Writer` and Model/BisyncNames.lean were read from exactly this code
@@ -77,7 +65,9 @@ C13_WRITER_FACTS = {'c13_all_writers': {'cmd/syncer.go:SyncerCmd.clusterCampaign
                      'syncer/input.go:RedisInput.sendOutput': ['ResetStartPoint()'],
                      'syncer/input.go:RedisInput.syncMeta': ['SetRunId()', 'ResetStartPoint()', 'SetRunId()'],
                      'syncer/output.go:RedisOutput.ResetStartPoint': ['DelCheckpoints()', 'purgeBisyncRecoveryState()', 'DeleteBisyncCommitKeys()'],
-                     'syncer/output.go:RedisOutput.SetRunId': ['UpdateCheckpoint()'],
+                     # /repo bf252d5 (another owner's fix, session 5): SetRunId first finishes the relabel of an earlier failed call (a second
+                     # UpdateCheckpoint with the pending id) - the same writer procedure twice, every request of it a rootWrites / hashSet / hashDel form
+                     'syncer/output.go:RedisOutput.SetRunId': ['UpdateCheckpoint()', 'UpdateCheckpoint()'],
                      'syncer/output.go:RedisOutput.sendAof': ['sendCmdsBatch()'],
                      'syncer/output.go:RedisOutput.sendCmdsBatch': ['Put("multi"×0)',
                                                                     'Put(ce.Cmd…)',
@@ -140,7 +130,8 @@ C13_WRITER_FACTS = {'c13_all_writers': {'cmd/syncer.go:SyncerCmd.clusterCampaign
                                                    'strconv.FormatInt(time.Now().UnixNano(), 10), )'],
                        'SetCheckpoint': ['cli.Do("hset", kvs...)'],
                        'SetCheckpointHash': ['redis.HSet(cli, config.CheckpointKeyHashKey, runId, cpName)'],
-                       'SetRunId': ['checkpoint.UpdateCheckpoint(cli, ro.cfg.CheckpointName, []string{id, ro.cfg.RunId})'],
+                       'SetRunId': ['checkpoint.UpdateCheckpoint(cli, ro.cfg.CheckpointName, []string{pending, ro.cfg.RunId})',
+                                    'checkpoint.UpdateCheckpoint(cli, ro.cfg.CheckpointName, []string{id, ro.cfg.RunId})'],
                        'UpdateCheckpoint': ['SetCheckpoint(outCli, cpKv)',
                                             'SetCheckpointHash(outCli, id1, localCheckpoint)',
                                             'DelCheckpoint(outCli, cpName, oldId)',
@@ -190,7 +181,7 @@ C13_WRITER_FACTS = {'c13_all_writers': {'cmd/syncer.go:SyncerCmd.clusterCampaign
  'c13_txn_batcher_sites': ['syncer/bisync.go:newBisyncTxnBatcher:conn.NewTxnBatcher()']}
 
 PROP = {
-    "lean_modules": ["GunYu.Props.C13", "GunYu.Props.C13Names"],
+    "lean_modules": ["GunYu.Props.C13", "GunYu.Props.C13Names", "GunYu.Props.C13Drain", "GunYu.Props.C13Gen", "GunYu.Props.C13Snap", "GunYu.Props.C13Db", "GunYu.Props.C13Cluster"],
     "audit_namespaces": ["GunYu.Props.C13"],
     "required_theorems": [
         "GunYu.Props.C13.mirrored_recognised",
@@ -215,11 +206,40 @@ PROP = {
         "GunYu.Props.C13.no_loop_resolved_names",
         "GunYu.Props.C13.reserved_traffic_quiet",
         "GunYu.Props.C13.cleanup_marker_in_shared_del_echoes",
+        "GunYu.Props.C13.drain_work_bound",
+        "GunYu.Props.C13.every_fair_schedule_drains",
+        "GunYu.Props.C13.enough_steps_drain",
+        "GunYu.Props.C13.every_fair_schedule_drains_global",
+        "GunYu.Props.C13.gen_isBisyncMarkerKey_eq_model",
+        "GunYu.Props.C13.gen_isBisyncLatestKey_eq_model",
+        "GunYu.Props.C13.gen_isBisyncCommitKey_eq_model",
+        "GunYu.Props.C13.gen_isBisyncRdbRecordKey_eq_model",
+        "GunYu.Props.C13.gen_isBisyncCommitIndexKey_eq_model",
+        "GunYu.Props.C13.gen_isBisyncNamespaceKey_eq_model",
+        "GunYu.Props.C13.gen_touchesBisyncNamespace_eq_model",
+        "GunYu.Props.C13.gen_isBisyncControlCommand_eq_model",
+        "GunYu.Props.C13.gen_isBisyncMarkerCommand_eq_model",
+        "GunYu.Props.C13.gen_isBisyncMarkerExpiryCommand_eq_model",
+        "GunYu.Props.C13.gen_isBisyncMirroredTransaction_eq_model",
+        "GunYu.Props.C13.snapshot_target_outside_namespace",
+        "GunYu.Props.C13.snapshot_event_ok",
+        "GunYu.Props.C13.old_snapshot_filter_admits_reserved_target",
+        "GunYu.Props.C13.select_transparent",
+        "GunYu.Props.C13.mirrored_recognised_behind_select",
+        "GunYu.Props.C13.select_blacklisted_bypasses",
+        "GunYu.Props.C13.bypassed_block_dropped",
+        "GunYu.Props.C13.cluster_commit_single_node_and_recognised",
     ],
-    "gens": ["c18", "c10"],
+    "gens": ["c18", "c10", "gofn_bisynckeypreds", "gofn_bisyncpreds"],
     "expected_facts": {
-        "bisync_syncer_predicates": SYNCER_PREDICATES,
-        "bisync_key_predicates": KEY_PREDICATES,
+        "c13_slotmode_body": SLOTMODE_BODY,
+        "c13_rdb_filter_plain": ["ro.outFilter.FilterKey(util.BytesToString(e.Key)) || ro.outFilter.FilterSlot(util.BytesToString(e.Key)) || "
+                                 "ro.bisyncNsFilter.FilterKey(util.BytesToString(e.Key)) || ro.bisyncRdbTargetReserved(e.Key)"],
+        "c13_rdb_filter": {
+            "bisyncRdbTargetKey": "{ if len(key) == 0 { return nil } if !ro.cfg.ReplaceHashTag { return key } targetKey := append([]byte(nil), key...) if ro.cfg.ReplaceHashTag { targetKey = bytes.Replace(targetKey, []byte(\"{\"), []byte(\"\"), 1) targetKey = bytes.Replace(targetKey, []byte(\"}\"), []byte(\"\"), 1) } return targetKey }",
+            "bisyncRdbTargetReserved": "{ if !ro.cfg.ReplaceHashTag { return false } target := string(ro.bisyncRdbTargetKey(key)) return isBisyncNamespaceKey(target) || strings.HasPrefix(target, config.NamespacePrefixKey) }",
+            "rdbReplayBisync_if": ["ro.outFilter.FilterKey(string(e.Key)) || ro.outFilter.FilterSlot(string(e.Key)) || isBisyncNamespaceKey(string(e.Key)) || ro.bisyncRdbTargetReserved(e.Key)"],
+        },
         "bisync_cpname_body": ('{ buf := make([]byte, 12) if _, err := rand.Read(buf); err != nil { return "", err } '
                                'return fmt.Sprintf("%s:%x", BisyncCheckpointKeyPrefix, buf), nil }'),
         **C13_WRITER_FACTS,
@@ -250,12 +270,28 @@ PROP = {
             "purgeBisyncRecoveryState, DEL <latest> per slot). (7) the tool's high-availability traffic on its INPUT Redis (registry SET … EX / DEL, election script effects SET EX / EXPIRE / "
             "DEL on /redis-gunyu/… keys, 2 % of the events, corpus 'H<S>:<cmd>'), keys with an expiry, lazy expiry ahead of the SET inside MULTI: nothing of it may come out as a unit. "
             "The names op carries INPUTS only (ids, random bytes, desired recovery family): whether a start switches the format and what UpdateCheckpoint relabels / drops is computed by the "
-            "model (runFull). distinct_nontrivial is not used (histories are compared whole)",
+            "model (runFull). distinct_nontrivial is not used (histories are compared whole). "
+            "SESSION 5: (14) closed loop with a CLUSTER pair through the real cluster-mode loops in both directions (rerun clusterloop): see partial; (12) histories with databases in the closed loop (rerun 'histdb'): see partial; (13) the hash-tag probe in plain mode (rerun hashtagplain; found D41): real rdb.Loader + "
+            "rdbReplay, replaceHashTag on, keyExists replace / ignore x RESTORE on / off, a stored position at the target: every reserved key is afterwards what it was. (8) the recognition predicates are REGENERATED: isBisyncNamespaceKey / touchesBisyncNamespace / isBisyncControlCommand / isBisyncMarkerCommand / "
+            "isBisyncMarkerExpiryCommand / isBisyncMirroredTransaction (syncer/bisync.go) and the five checkpoint.IsBisync…Key predicates are translated Go->Lean on every run "
+            "(generators gofn_bisyncpreds, gofn_bisynckeypreds: Gen/FnBisyncPreds.lean, Gen/FnBisyncKeyPreds.lean) and proved equal to the hand model for all inputs "
+            "(Props/C13Gen.lean gen_*_eq_model; ASCII command names, list lengths < 2^63-1); their printed-body facts were dropped. (9) near misses of a mirrored transaction "
+            "(13 shapes x 2 slot tags: DEL/UNLINK naming the marker AND another key, the marker twice in one DEL, DEL of a non-marker control key, SET marker without value, SETEX / "
+            "GETSET / PEXPIREAT of the marker, marker key in another letter case, infix without prefix, a key write ahead of the marker SET or between expiry and SET, expiries only) "
+            "through the real parser with a monitor on the implementation alone: one unit holding all commands, or the builder's refusal (replay.rerun = nearmiss); the same shapes are "
+            "mixed into the parse ops (counter parse_mirror_near_miss). (10) recognition behind SELECT and under a database blacklist: 8 streams through the real parser (mirrored block "
+            "with / without the lazy expiry behind SELECT 3, behind SELECT 2 with db 2 blacklisted, bypass ended by SELECT 0): no unit of tool commands, no stop, client writes outside the "
+            "blacklisted database come out. (11) hash-tag probe (replay.rerun = hashtagprobe; found D40): a snapshot with client keys '{redis-gunyu-bisync:}<cp>:latest:{tag}' (hash, "
+            "expiry 1 h), '{redis-gunyu-checkpoint}-x', '{u}ser' and another link's control key through the REAL rdb.Loader + rdbReplayBisync with replaceHashTag on, both links' real send "
+            "loops, 2 h tick, the real format switch (cleanupBisyncNamespace), 3 Redis configs x 2 replay modes: no reserved key other than a marker carries an expiry at the destination, "
+            "nothing under a reserved prefix holds a client value, '{u}ser' arrives as 'user', nothing the clean-up wrote comes back as a unit",
     "trusted": ["`propagate` (Model/BisyncSite.lean): transcription of what a Redis master writes to its replication stream — PX/EX->PXAT, "
                 "(P)EXPIRE(AT)->PEXPIREAT, RESTORE ttl->ABSTTL, no-op commands omitted, DEL/UNLINK of a key found expired propagated ahead of the "
                 "command that touched it (inside the same MULTI/EXEC), Redis>=7 and older MULTI/EXEC propagation; quantified over the 8 combinations "
                 "of RedisCfg; ZADD is always counted as a change",
-                "the harness-side site double (same function in Go, diffed against the Lean one) and the shared target double as request recorder"],
+                "the harness-side site double (same function in Go, diffed against the Lean one) and the shared target double as request recorder",
+                "the Go->Lean translator for the eleven regenerated predicates: harness/extract/gofn*.go + gofn_c13.go (strings.HasPrefix / Contains / ToLower-ASCII-or-none / "
+                "util.BytesToString) and the prelude lean/GunYu/Basic/GoSem.lean + GoSemStrings.lean; the differential parse ops on the real code stay in place as the independent check"],
     "assumptions": ["default output filter (NoRouteCmds + the two reserved prefixes): the property's quantifier does not range over user filters; a prefix "
                     "whitelist or a slot filter that rejects marker/record keys would break recognition (observation, not a finding)",
                     "client commands the world theorem ranges over (ClientOK): forwardable name (not MULTI/EXEC/SELECT/PING/PUBLISH, not on the command "
@@ -268,7 +304,10 @@ PROP = {
                     "link step = the parser reads one whole block and the unit is committed before the next is read; the real loops pipeline and (parallel mode) reorder "
                     "across lanes — tied by the closed-loop histories running the real loops, not by the model",
                     "command names are ASCII (Go's Unicode case folding outside the model)",
-                    "parser, commit order, predicates tied by correspondence; key constructors, infix literals, TTL regenerated; predicate bodies compared with expectation",
+                    "parser and commit order tied by correspondence; key constructors, infix literals, TTL regenerated; the eleven recognition predicates are regenerated Go->Lean and proved equal "
+                    "to the model (session 5), under AsciiName (every byte of a command name < 0x80: Go's strings.ToLower takes its Unicode path otherwise, which the translator's prelude "
+                    "does not model - the generated function is `none` there) and list lengths < 2^63-1; the translator's reading of strings.HasPrefix / strings.Contains / strings.ToLower "
+                    "(ASCII) / util.BytesToString (checked to be the unsafe cast) is lean/GunYu/Basic/GoSemStrings.lean + harness/extract/gofn_c13.go (trusted)",
                     "the checkpoint hash of a target holds names the tool stored (HashGen, the empty hash of a fresh target in particular): clients stay out of redis-gunyu-checkpoint* "
                     "(ClientOK); given that, every name a start reads back is a generated one (resolved_names_generated) - no longer assumed per name",
                     "the inventory of target writers (Proofs/BisyncWriters.lean Writer; ResetStartPoint added after the round-4 review) is complete for the bidirectional path: pinned by the "
@@ -329,19 +368,41 @@ PROP = {
                 "foreign_never_suppressed_stmt (hypothesis on keys only) is kept as a def: the code's namespace test looks at the first argument of every "
                 "command, so a key-less command whose first argument carries a reserved prefix (PUBLISH redis-gunyu-bisync:…) is skipped; the proved "
                 "theorem carries the first-argument hypothesis (fgn_of_keys shows it follows from the keys hypothesis when the first argument is a key)",
-                "the closed-loop world is a STANDALONE pair (vfc13NewWorld builds both outputs with cluster=false): in cluster mode the parser is covered by the parse ops "
-                "and the commit shape / routing by C18, but no history runs the real loops against a cluster target (lane routing unit.Slot % lanes, "
-                "execBisyncRdbGlobalUnit are outside C13's loop); the two links are two syncers (input names in-A / in-B, run ids runid-A / runid-B)",
-                "EvOK' / EvGen ask of a snapshot unit that the first argument of its commands lies outside the namespace, justified by the snapshot filter (C10). That filter tests the "
-                "SOURCE key (rdbReplayBisync: isBisyncNamespaceKey(e.Key)) while with replaceHashTag the unit is written under the key with its first brace pair removed: a source key such as "
-                "'{redis-gunyu-bisync:}<cp>:latest:{t}' passes the filter and is replayed INTO the namespace. Read from the code, not reproduced; no loop and no suppression follows (the unit's block "
-                "is marker-led), but for such keys the snapshot condition is an assumption, not a consequence (reported to the C20 owner)",
+                "CLUSTER PAIR in the closed loop (session 5, vf_c13_cluster_test.go, replay.rerun = clusterloop): two clusters of three masters (C18's slot-checking node doubles over "
+                "loopback TCP), a site double per master, one syncer per source master running the REAL sendAofBisync in cluster mode (cluster slot mode of the parser, sync / pipeline / parallel "
+                "with 2 lanes = lane routing unit.Slot % lanes, real cluster client + transaction batcher) in BOTH directions, two rounds with a day between them (lazy expiry of the marker "
+                "ahead of the SET in the second), 20 commits per mode over all three masters: every commit block marker-led, accepted by the owner of the unit's slot, exactly one client "
+                "transaction, each exactly once, nothing a syncer wrote comes back, no stop, two further passes commit nothing; a stalled loopback run is counted, not judged. Scripted (10 "
+                "transactions per round), not generated; no restarts / cuts / format switch in the cluster pair, and execBisyncRdbGlobalUnit (one global unit fanned out to every primary "
+                "under a local slot tag) is still outside any closed loop (its routing is C18's globalCases). The generated histories remain a standalone pair. Cluster mode is also composed FORMALLY with C18 "
+                "(cluster_commit_single_node_and_recognised: a client block met by a cluster-mode parser is refused or becomes one unit whose whole commit transaction - business keys, marker, "
+                "record, index, under any generated name - hashes to the unit's slot, i.e. runs on one master, and every block that master propagates is passed over by the opposite parser in any "
+                "mode), with the parse ops (1/3 in cluster mode) and C18's real cluster loops as the tie; what no history and no theorem covers: lane routing unit.Slot % lanes of the parallel "
+                "mode and execBisyncRdbGlobalUnit (one global unit fanned out to every primary under a local slot tag) inside a closed loop; the two links are two syncers (in-A / in-B)",
+                "CLOSED (was: replaceHashTag x namespace filter 'read from the code, not reproduced'): DECIDED by a real run - it DID violate the property (D40, repaired /repo f9044ee). "
+                "rdbReplayBisync tested the snapshot's key while with replaceHashTag the unit is written under the key with its first brace pair removed: the client key "
+                "'{redis-gunyu-bisync:}<cp>:latest:{tag}' with an expiry was written over the link's latest record, and after the next format switch the multi-key DEL of the clean-up met the "
+                "expired-unreaped key: MULTI, DEL latest, DEL latest index, EXEC came back as a unit through the opposite link's real parser (hash-tag probe). Now the filter also withholds an "
+                "entry whose TARGET key is reserved (bisyncRdbTargetReserved); snapshot_target_outside_namespace / snapshot_event_ok derive EvOK''s snapshot condition from the modelled filter "
+                "(rdbTargetKey / rdbKept, Props/C13Snap.lean: transcriptions tied by the probe and the source fact c13_rdb_filter, not regenerated - methods of RedisOutput are outside gofn). "
+                "What stays assumed: that the FIRST ARGUMENT of every command of a snapshot unit is that target key (how buildBisyncRdbReplayUnit expands a value is C20 / C18). NOT repaired, "
+                "not C13's statement but reproduced from C13's harness and REPAIRED too (D41, /repo e867911): the plain snapshot path had the same hole - '{redis-gunyu-checkpoint}' was replayed by "
+                "rdbrestore as the checkpoint key itself, the stored position gone (probe vfc13HashTagPlainProbe: real rdb.Loader + rdbReplay, keyExists replace / ignore x RESTORE on / off, "
+                "replay.rerun = hashtagplain; fact c13_rdb_filter_plain); rdbKept with uf := the three source-key filters is the model of both loops",
                 "snapshot phase: snapshot units (1-150 commands, the >64 ones counted) are sent by the real execBisyncRdbUnit and enter the closed loop as the block the "
                 "target received (monitors: one MULTI, marker first, no block without marker); how buildBisyncRdbReplayUnit expands a value into commands is C20 / C18",
-                "drain_reaches is an existence statement (there IS a finite drain ending Settled, after which link steps are no-ops); that EVERY fair schedule drains "
-                "follows in substance from link_step_progress + drain_bound but is not stated as a theorem; a link step is one whole block committed atomically",
-                "databases: the closed loop, the model and every theorem have one keyspace; D31 is measured by a side probe (2 streams x 2 links x 3 modes through the real "
-                "loops), not by the exactly-once monitor; recognition of a mirrored block behind a SELECT and the db blacklist vs mirrored blocks are examined by parse ops only",
+                "CLOSED (was: drain_reaches is an existence statement): every_fair_schedule_drains(_global) - along ANY infinite schedule of link steps in which each link steps again and "
+                "again, from some index on every prefix leaves both links settled and nothing moves any more; drain_work_bound / enough_steps_drain give the exact count (link s needs "
+                "needOf w s of ITS OWN steps, the other link's steps neither help nor hurt). Still: a link step is one whole block committed atomically (the real loops pipeline; tied by the "
+                "closed-loop drain monitor, not by the model), and the schedule consists of link steps only (clients that never stop writing never let the exchange quiesce - as the property says)",
+                "databases: RECOGNITION is now proved (Props/C13Db.lean: select_transparent, mirrored_recognised_behind_select, select_blacklisted_bypasses, bypassed_block_dropped - a SELECT "
+                "of a database n >= 0 is consumed, behind a non-blacklisted one the parser is idle and every block of a commit is passed over, behind a blacklisted one EVERY block is dropped "
+                "without unit or stop) and monitored on the real parser (8 streams); the CLOSED LOOP now has databases (40 quick / 1200 thorough extra histories 'histdb <sub> <n>': clients of either site go on in database 0 / 1 / 3, the site doubles write "
+                "SELECT blocks ahead of the first write in another database - also ahead of the tool's commits, which arrive in the database the target connection had -, restarts resume behind a "
+                "SELECT; all monitors of the loop apply and the exactly-once monitor also asks WHERE a unit was committed: D31 is measured there, ~170 units per quick run, every one of the known "
+                "shape 'src_db!=0 committed in dst_db=0', any other pairing a new violation) beside the side probe. The site double keeps ONE keyspace (its databases alias; what is judged is the "
+                "database of a commit, not key states) and these histories carry NO Lean world op: the Lean World still has one keyspace per site, i.e. the world theorems hold per database only "
+                "where the client writes are in database 0 - several keyspaces in Model/BisyncSite.lean (a shared model under 1500 lines of invariant proofs) were not done",
                 "monitors named tie-shape:* (commit-shape: marker + business + exactly one record (+index) in that order; unmodelled-bookkeeping-traffic: a stand-alone "
                 "request with no form in the Lean Bookkeeping vocabulary) and the expected_facts text pins ask for more than the property (the property needs 'marker first, "
                 "one MULTI' and 'skipped by the opposite parser'); they guard the model's correspondence and are labelled as such",
@@ -364,8 +425,13 @@ MANIFEST = {
             "and under the reserved prefix because of how the tool makes and stores them, a name read back from the checkpoint hash included; (tool_writers_in_vocabulary, "
             "no_loop_generated_names) every request of every modelled target writer is a stand-alone bookkeeping request that the opposite link passes over, so the no-loop theorem "
             "holds over generated names (GenCp, discharged by no_loop_resolved_names for names that starts resolve) and whole writer procedures; (reserved_traffic_quiet) the tool's registry / "
-            "election traffic under /redis-gunyu is never forwarded; (cleanup_marker_in_shared_del_echoes) the one writer request that was not - repaired D38. Tied to the code by differential correspondence of the predicates, the parser, the propagation double and whole closed-loop "
-            "histories through the real parser/commit code.",
+            "election traffic under /redis-gunyu is never forwarded; (cleanup_marker_in_shared_del_echoes) the one writer request that was not - repaired D38. Session 5: (every_fair_schedule_drains, _global; drain_work_bound, enough_steps_drain) the exchange quiesces along EVERY infinite schedule of link steps "
+            "in which each link keeps stepping, after exactly needOf w s own steps per link; (gen_*_eq_model, 11 theorems) the recognition predicates REGENERATED from the Go source equal the model; "
+            "(snapshot_target_outside_namespace, snapshot_event_ok, old_snapshot_filter_admits_reserved_target) the key a kept snapshot entry is written under - replaceHashTag included - lies "
+            "outside the namespace, which the filter before the repair of D40 did not give; (select_transparent, mirrored_recognised_behind_select, select_blacklisted_bypasses, "
+            "bypassed_block_dropped) recognition behind SELECT and under a database blacklist; (cluster_commit_single_node_and_recognised) cluster mode composed with C18: one unit, one slot, "
+            "one master, recognised there. Tied to the code by regeneration of the predicates, differential correspondence of the parser and the propagation double, whole closed-loop "
+            "histories through the real parser/commit code, and probes through the real snapshot replay.",
     "note": "trusted: Lean kernel, the `propagate` transcription of Redis's propagation rewrites, extractor, harness doubles; the global theorems assume "
             "nothing about states (event-local conditions only); exactly-once under restarts is claimed for exact (sync-mode) restarts only; databases are the known exception (D31)",
     "technique": "Lean 4 proof (parser lemmas over filtered block bodies, shape lemma for propagate, two-site invariant by induction over event lists) + "
